@@ -54,7 +54,7 @@ class C22(Check):
     known_classes = {}
 
     def make_case(self, rng):
-        kind = rng.choice(["group"] * 6 + ["foreign", "cmd", "short", "biggroup"])
+        kind = rng.choice(["group"] * 6 + ["foreign", "cmd", "short", "biggroup", "biggroup"])
         L = rng.randint(31, 70)
         f = bytearray(rng.randrange(256) for _ in range(L))
         f[12:14] = b"\x88\xa4"
@@ -71,7 +71,9 @@ class C22(Check):
         elif kind == "short":
             f = f[:rng.randint(14, 30)]
         elif kind == "biggroup":
-            f[18:22] = struct.pack("<I", rng.choice([64, 65, 1000, 2 ** 32 - 1]))
+            # not a fast group: 64 and above, including addresses whose low 8 / 16 / 24 bits are a group number with a matching counter
+            f[18:22] = struct.pack("<I", rng.choice([64, 65, 1000, 2 ** 32 - 1, g + 256 * rng.randint(1, 2 ** 24 - 1), g + 65536 * rng.randint(1, 65535),
+                                                      g + 2 ** 24 * rng.randint(1, 255), g + 2 ** 31, g + 64, 2000 + rng.randrange(10 ** 9)]))
         return {"frame": bytes(f).hex(), "g": g, "c": c, "registered": rng.random() < 0.5, "prandom": rng.randrange(2 ** 32),
                 "others": rng.randrange(2 ** 32)}
 
@@ -212,7 +214,7 @@ class C22(Check):
     def rule(self):
         return ("frames of 31-70 random bytes: 60% group frames (EtherCAT ethertype, identification datagram) of a random group 0..63 with the frame index equal "
                 "to / one below / one above / two below the loop counter byte, 0 or random, counters 0, 1, 2, 3, 254..257, 511, 2**32-2, 2**32-1, random, "
-                "registered or not; foreign ethertypes, first datagram not a NOP, frames of 14-30 bytes, group numbers 64, 65, 1000, 2**32-1; all other counters random")
+                "registered or not; foreign ethertypes, first datagram not a NOP, frames of 14-30 bytes, addresses that are no fast group (64, 65, 1000, 2**32-1, a group number plus a multiple of 64 / 256 / 65536 / 2**24 / 2**31, the addresses roundtrip_packet draws); all other counters random")
 
     def distribution(self, cases, observed):
         d = {}
